@@ -1,5 +1,7 @@
 import PEval.Lemmas.APMono
 import PEval.Lemmas.APExt
+import PEval.Lemmas.APTotal
+import PEval.Lemmas.APPassFail
 import PEval.Properties.KernelBetter
 import PEval.Properties.KernelStatus
 /-!
@@ -363,5 +365,215 @@ theorem table_status_tp_mono {tr : DT.DTree} (ht : Gen.K.status.tree = some tr) 
       · simp [hc, hne, MatchKernels.ofStatusAP, MatchKernels.statusCodeAP, MatchKernels.sFpFn, MatchKernels.sTpTp] at h
       · rw [isResultCorrect_mono m r t t' hord hl hv hc]
         simp [hne, MatchKernels.ofStatusAP, MatchKernels.statusCodeAP]
+
+end PEval.C08
+
+/-! # Appended: definedness of the looser run, the pass/fail pipeline, `ALLOW_ANY`, defective variants
+(audit C08 F1, F3; stored changes C08_J, C08_G)
+
+* F1: every theorem above assumes that BOTH runs return.  `*_total` below: if every entry of the looser list is valid for
+  the mode (the IoU modes' assertion `0 ≤ t ≤ 1`; always true for the distance modes), the looser run returns whenever
+  the tighter one does — and the conclusion of the monotonicity theorem holds for what it returns.  "Loosening an IoU
+  threshold from 0.1 to −0.1" stays outside: the looser run raises `AssertionError` (`looser_iou_invalid_raises`).
+* F3: TP / FN monotonicity for the pass/fail accounting of C03 (`PassFail.evaluate`, the model `PassFailResult.evaluate`
+  is checked against) and for the composed pipeline `Pipeline.detectFrame` under two pass/fail threshold lists.
+* every theorem of this file quantifies over the result's `policy`; `allow_any_instance` instantiates the hypotheses with
+  an `ALLOW_ANY` cross-label pair, and `mono_fails_C08J` shows that the TP statement is violated by the stored change
+  C08_J (inverted branch under `ALLOW_ANY`), `apMono_fails_C08G` that the AP statement is violated by C08_G (`break`). -/
+
+namespace PEval.C08
+open PEval.AP
+
+/-! ## F1: the looser run returns -/
+
+/-- AP / APH: tight run returns, looser list valid ⇒ the loose run returns, a value not smaller, defined iff it was -/
+theorem ap_mono_threshold_total (tm : TpMetric) (m : Mode) (T : List Label) (th th' : List Rat) (G : Nat)
+    (rs : List Res) (hth : List.Forall₂ (looser m) th th') (hv : ∀ t ∈ th', thrValid m t = true)
+    (hfp : fpLabel ∉ T ∨ ∀ r ∈ rs, ∀ g, r.gt = some g → g.label ≠ fpLabel)
+    (hw : ∀ r ∈ rs, 0 ≤ r.hw) (a : ApOut) (h : apOf tm m T th G rs = .ok a) :
+    ∃ a', apOf tm m T th' G rs = .ok a' ∧ optLe a.ap a'.ap := by
+  obtain ⟨a', h'⟩ := apOf_ok_of_looser hth hv h
+  exact ⟨a', h', apOf_thr_mono hth hfp hw h h'⟩
+
+/-- `Map` (frame or scene level: any nested buckets) -/
+theorem map_mono_threshold_total (m : Mode) (is2d : Bool) (T : List Label) (th th' : List Rat)
+    (buckets : List (Label × List (List Res))) (nums : List (Label × Nat))
+    (hth : List.Forall₂ (looser m) th th') (hv : ∀ t ∈ th', thrValid m t = true) (hfp : fpLabel ∉ T)
+    (hw : ∀ l rss, lookupKey l buckets = .ok rss → ∀ r ∈ rss.flatten, 0 ≤ r.hw) (o : MapOut)
+    (h : mapOf m is2d T th buckets nums = .ok o) :
+    ∃ o', mapOf m is2d T th' buckets nums = .ok o' ∧ optLe o.map o'.map ∧ optLe o.maph o'.maph
+      ∧ List.Forall₂ (fun a a' => optLe a.ap a'.ap) o.aps o'.aps
+      ∧ List.Forall₂ (fun a a' => optLe a.ap a'.ap) o.aphs o'.aphs := by
+  obtain ⟨o', h'⟩ := mapOf_ok_of_looser hth hv h
+  exact ⟨o', h', mapOf_mono hth hfp hw h h'⟩
+
+/-- frame level -/
+theorem frame_map_mono_threshold_total (m : Mode) (is2d : Bool) (T : List Label) (th th' : List Rat)
+    (rs : List Res) (gtLabels : List Label) (hth : List.Forall₂ (looser m) th th')
+    (hv : ∀ t ∈ th', thrValid m t = true) (hfp : fpLabel ∉ T) (hw : ∀ r ∈ rs, 0 ≤ r.hw) (o : MapOut)
+    (h : frameMap m is2d T th rs gtLabels = .ok o) :
+    ∃ o', frameMap m is2d T th' rs gtLabels = .ok o' ∧ optLe o.map o'.map ∧ optLe o.maph o'.maph
+      ∧ List.Forall₂ (fun a a' => optLe a.ap a'.ap) o.aps o'.aps
+      ∧ List.Forall₂ (fun a a' => optLe a.ap a'.ap) o.aphs o'.aphs := by
+  obtain ⟨o', h'⟩ := mapOf_ok_of_looser (T := T) hth hv h
+  exact ⟨o', h', frameMap_mono hth hfp hw h h'⟩
+
+/-- `get_positive_objects` / `get_negative_objects` -/
+theorem tp_fn_mono_total (m : Mode) (T : List Label) (th th' : List Rat)
+    (hth : List.Forall₂ (looser m) th th') (hv : ∀ t ∈ th', thrValid m t = true) (gts : List Gt) (rs : List Res)
+    (p n : List Nat × List Nat) (h : getPositive m T (some th) rs = .ok p)
+    (hn : getNegative m T (some th) gts rs = .ok n) :
+    ∃ p' n', getPositive m T (some th') rs = .ok p' ∧ getNegative m T (some th') gts rs = .ok n'
+      ∧ p.1.Sublist p'.1 ∧ p'.2.Sublist p.2 ∧ n'.2.Sublist n.2 := by
+  obtain ⟨p', hp'⟩ := getPositive_ok_of_looser hth hv h
+  obtain ⟨n', hn'⟩ := getNegative_ok_of_looser hth hv hn
+  obtain ⟨i1, i2⟩ := getPositive_mono hth h hp'
+  exact ⟨p', n', hp', hn', i1, i2, getNegative_mono hth hn hn'⟩
+
+/-- the hypothesis is needed: an IoU threshold "loosened" below 0 makes the looser run raise -/
+theorem looser_iou_invalid_raises :
+    looser .iou3d (1/10) (-1/10)
+      ∧ apOf .ap .iou3d [2] [1/10] 1 [{ r0 with score := .val (some (1/2)) }]
+          = .ok { ap := some 1, tpList := [1], fpList := [0] }
+      ∧ apOf .ap .iou3d [2] [-1/10] 1 [{ r0 with score := .val (some (1/2)) }] = .error "AssertionError" := by
+  refine ⟨by simp [looser, Mode.isDistance]; norm_num, by decide +kernel, by decide +kernel⟩
+
+/-- non-vacuity of the `*_total` hypotheses (distance mode: every threshold is valid) -/
+example : (∀ t ∈ [(2 : Rat)], thrValid .centerDistance t = true)
+    ∧ apOf .ap .centerDistance [2] [1] 1 [r0] = .ok { ap := some 0, tpList := [0], fpList := [1] } :=
+  ⟨by decide +kernel, by decide +kernel⟩
+
+/-! ## F3: the pass/fail accounting and the composed pipeline -/
+
+/-- `PassFailResult.evaluate` (model of C03) on the same object results under pointwise looser thresholds: the TP list
+(estimate ids, order kept) only grows and the FN list only shrinks -/
+theorem passfail_tp_fn_mono (rs rs' : List PassFail.Res) (gts : List PassFail.GT)
+    (h : List.Forall₂ PassFail.ThrLooser rs rs') :
+    ((PassFail.evaluate rs gts).tp.map (·.est)).Sublist ((PassFail.evaluate rs' gts).tp.map (·.est))
+      ∧ (PassFail.evaluate rs' gts).fn.Sublist (PassFail.evaluate rs gts).fn
+      ∧ (PassFail.evaluate rs gts).tp.length ≤ (PassFail.evaluate rs' gts).tp.length
+      ∧ (PassFail.evaluate rs' gts).fn.length ≤ (PassFail.evaluate rs gts).fn.length := by
+  obtain ⟨h1, h2⟩ := PassFail.evaluate_mono gts h
+  refine ⟨h1, h2, ?_, h2.length_le⟩
+  simpa using h1.length_le
+
+/-- `evaluate_frame` (critical filter first) -/
+theorem passfail_frame_tp_fn_mono (f f' : PassFail.Frame) (hg : f'.gts = f.gts)
+    (h : List.Forall₂ PassFail.ThrLooser f.results f'.results) :
+    ((PassFail.evaluateFrame f).tp.map (·.est)).Sublist ((PassFail.evaluateFrame f').tp.map (·.est))
+      ∧ (PassFail.evaluateFrame f').fn.Sublist (PassFail.evaluateFrame f).fn := by
+  unfold PassFail.evaluateFrame
+  rw [hg]
+  exact PassFail.evaluate_mono _ (PassFail.criticalResults_rel h)
+
+/-- The composed pipeline (matcher → critical filter → pass/fail) run on the same frame with a pointwise larger
+pass/fail (plane-distance) threshold list: same matching, TP estimates a sub-list, FN ground truths a super-list;
+TP count non-decreasing, FN count non-increasing. -/
+theorem pipeline_tp_fn_mono (f : Pipeline.Frame) (th th' : List Rat) (hf : f.pfThrs = some th)
+    (hth : List.Forall₂ (· ≤ ·) th th') (o o' : Pipeline.Out) (h : Pipeline.detectFrame f = .ok o)
+    (h' : Pipeline.detectFrame (Pipeline.withPfThrs f th') = .ok o') :
+    o'.matched = o.matched
+      ∧ (o.pf.tp.map (·.est)).Sublist (o'.pf.tp.map (·.est)) ∧ o'.pf.fn.Sublist o.pf.fn
+      ∧ o.pf.tp.length ≤ o'.pf.tp.length ∧ o'.pf.fn.length ≤ o.pf.fn.length := by
+  obtain ⟨rs, hr, hm, hpf, _⟩ := Pipeline.detectFrame_ok h
+  obtain ⟨rs', hr', hm', hpf', _⟩ := Pipeline.detectFrame_ok h'
+  have hrs : rs' = rs := by
+    have : Matching.getObjectResults f.cfg f.scene = .ok rs' := hr'
+    rw [hr] at this
+    cases this; rfl
+  subst hrs
+  have hmono := passfail_frame_tp_fn_mono (Pipeline.pfFrame f rs') (Pipeline.pfFrame (Pipeline.withPfThrs f th') rs')
+    rfl (Pipeline.map_toPFRes_rel f hf hth rs')
+  rw [hpf, hpf']
+  refine ⟨by rw [hm, hm'], hmono.1, hmono.2, ?_, hmono.2.length_le⟩
+  simpa using hmono.1.length_le
+
+/-- non-vacuity, on a frame on which the inequality is strict: one car estimate at plane distance 3 from its ground truth is FP /
+its ground truth FN at threshold 2, TP / no FN at threshold 4 -/
+def exLoose : Pipeline.Frame :=
+  { cfg := { policy := .default, mode := .centerDistance, targets := some ["car"],
+             thresholds := some [5], fpValidation := false },
+    scene := { ests := [⟨"car", "base_link"⟩], gts := [⟨"car", "base_link"⟩], val := fun _ _ => 1 },
+    est := fun i => ⟨1 + i, 2, 1, true⟩,
+    gt := fun j => ⟨101 + j, 2, true, 101 + j⟩,
+    pfTargets := [2], pfThrs := some [2],
+    pfScore := fun _ _ => some 3,
+    apScore := fun _ _ _ => some 1,
+    hw := fun _ _ => 1,
+    critTargets := [2], mapTargets := [2], maps := [] }
+
+example : exLoose.pfThrs = some [2] ∧ List.Forall₂ (· ≤ ·) [(2 : Rat)] [4] :=
+  ⟨rfl, .cons (by norm_num) .nil⟩
+
+example :
+    (Pipeline.detectFrame exLoose).toOption.map (fun o => (o.pf.tp.map (·.est), o.pf.fn.map (·.id))) = some ([], [101])
+      ∧ (Pipeline.detectFrame (Pipeline.withPfThrs exLoose [4])).toOption.map
+          (fun o => (o.pf.tp.map (·.est), o.pf.fn.map (·.id))) = some ([1], []) := by
+  decide +kernel
+
+/-! ## `ALLOW_ANY`, and the stored changes C08_J / C08_G as defective variants -/
+
+/-- a car estimate paired with a PEDESTRIAN ground truth under `ALLOW_ANY`, center distance 3/2 -/
+def rAny : Res :=
+  { id := 0, conf := 1/2, label := 2, gt := some { id := 0, label := 4 }, score := .val (some (3/2)),
+    hw := 1, policy := .allowAny }
+
+/-- the hypotheses of the theorems above instantiated with an `ALLOW_ANY` cross-label pair: FP at threshold 1, TP at 2
+(pedestrian AP 0 → 1; TP list [] → [0]; FN list [0] → []) -/
+theorem allow_any_instance :
+    (∀ g, rAny.gt = some g → g.label ≠ fpLabel)
+      ∧ isResultCorrect .centerDistance (some 1) rAny = .ok false
+      ∧ isResultCorrect .centerDistance (some 2) rAny = .ok true
+      ∧ (apOf .ap .centerDistance [4] [1] 1 [rAny]).toOption.map (·.ap) = some (some 0)
+      ∧ (apOf .ap .centerDistance [4] [2] 1 [rAny]).toOption.map (·.ap) = some (some 1)
+      ∧ getPositive .centerDistance [4] (some [1]) [rAny] = .ok ([], [0])
+      ∧ getPositive .centerDistance [4] (some [2]) [rAny] = .ok ([0], [])
+      ∧ getNegative .centerDistance [4] (some [1]) [⟨0, 4⟩] [rAny] = .ok ([], [0])
+      ∧ getNegative .centerDistance [4] (some [2]) [⟨0, 4⟩] [rAny] = .ok ([], []) := by
+  refine ⟨?_, ?_⟩
+  · intro g hg; simp [rAny] at hg; subst hg; decide
+  · decide +kernel
+
+/-- "a TP stays a TP" for an arbitrary `is_result_correct` -/
+def TpMonoStmt (irc : Mode → Option Rat → Res → Except Err Bool) : Prop :=
+  ∀ (m : Mode) (r : Res) (t t' : Rat), (∀ g, r.gt = some g → g.label ≠ fpLabel) → looser m t t' →
+    thrValid m t' = true → irc m (some t) r = .ok true → irc m (some t') r = .ok true
+
+theorem tpMono_isResultCorrect : TpMonoStmt isResultCorrect :=
+  fun m r t t' hord hl hv h => isResultCorrect_mono m r t t' hord hl hv h
+
+/-- stored change C08_J: under `ALLOW_ANY` the inverted branch makes a result "correct" iff it does NOT beat the
+threshold — `rAny` is correct at 1 and no longer at 2 -/
+theorem mono_fails_C08J : ¬ TpMonoStmt isResultCorrectC08J := by
+  intro h
+  have := h .centerDistance rAny 1 2 (by intro g hg; simp [rAny] at hg; subst hg; decide)
+    (by simp [looser, Mode.isDistance]) (by decide +kernel) (by decide +kernel)
+  revert this
+  decide +kernel
+
+/-- "pointwise larger TP weights never lower the AP" for an arbitrary ranking → `Ap` step -/
+def ApMonoStmt (K : Nat → List Kind → ApOut) : Prop :=
+  ∀ (G : Nat) (ks ks' : List Kind), List.Forall₂ (fun k k' => 0 ≤ k.tpw ∧ k.tpw ≤ k'.tpw) ks ks' →
+    optLe (K G ks).ap (K G ks').ap
+
+theorem apMono_apOfKinds : ApMonoStmt apOfKinds := fun G _ _ h => apOfKinds_mono G h
+
+/-- stored change C08_G (`break` in the interpolation scan): ranking [TP, FP, FP, FP, x] with 5 ground truths — turning
+the last FP into a TP lowers the "AP" from 1/5 to 4/25 (the real value is 7/25) -/
+theorem apMono_fails_C08G : ¬ ApMonoStmt apOfKindsC08G := by
+  intro h
+  have hF : List.Forall₂ (fun k k' : Kind => 0 ≤ k.tpw ∧ k.tpw ≤ k'.tpw)
+      [.tp 1, .fp, .fp, .fp, .fp] [.tp 1, .fp, .fp, .fp, .tp 1] := by
+    refine .cons ?_ (.cons ?_ (.cons ?_ (.cons ?_ (.cons ?_ .nil)))) <;> simp [Kind.tpw]
+  have := h 5 _ _ hF
+  have e1 : (apOfKindsC08G 5 [.tp 1, .fp, .fp, .fp, .fp]).ap = some (1/5) := by decide +kernel
+  have e2 : (apOfKindsC08G 5 [.tp 1, .fp, .fp, .fp, .tp 1]).ap = some (4/25) := by decide +kernel
+  rw [e1, e2] at this
+  simp only [optLe] at this
+  norm_num at this
+
+/-- the unchanged scan on the same two rankings: 1/5 → 7/25 -/
+example : (apOfKinds 5 [.tp 1, .fp, .fp, .fp, .fp]).ap = some (1/5)
+    ∧ (apOfKinds 5 [.tp 1, .fp, .fp, .fp, .tp 1]).ap = some (7/25) := by decide +kernel
 
 end PEval.C08
